@@ -126,6 +126,11 @@ func (r *runner) beginBurst(ops []Op) {
 		if s.stalled && s.gone == "" {
 			r.lastStalled = r.now()
 		}
+		if !s.attachRet {
+			// a handshake still in flight (in its WELCOME gate) keeps
+			// realm.close waiting with the close lock held
+			safe = false
+		}
 	}
 	if r.lastStalled >= 0 && r.now()-r.lastStalled <= yieldRetryMax {
 		safe = false
@@ -289,6 +294,9 @@ func (r *runner) execOp(i int, op *Op, gate chan struct{}) {
 	case "publish":
 		r.publish(s, ot, gate, op)
 	case "register":
+		r.mu.Lock()
+		r.everReg[s.spec.Realm+"|"+op.Proc] = append(r.everReg[s.spec.Realm+"|"+op.Proc], s)
+		r.mu.Unlock()
 		if s.stalled {
 			// its REGISTERED will not be read: remember the callee anyway
 			r.mu.Lock()
